@@ -413,7 +413,7 @@ def run(tier):
 
     dist = {}
     obs = {'nonexistent_wall_times': 0, 'non_whole_minute_offsets': 0, 'roundtrips_checked': 0, 'lenient_accepts': {},
-           'zoneinfo_vs_libc_disagreements': 0, 'format_normalised_nonexistent': 0}
+           'zoneinfo_vs_libc_disagreements': 0}
     nontrivial = set()
     corr_terms = []      # (term, description)
     per_zone_rt = {z: 0 for z in ZONES}
